@@ -111,4 +111,106 @@ theorem pow_emod (a M : Int) (k : Nat) : (a % M) ^ k % M = a ^ k % M := by
   | succ k ih =>
     rw [Int.pow_succ, Int.pow_succ, Int.mul_emod, ih, Int.emod_emod_of_dvd _ (Int.dvd_refl M), ← Int.mul_emod]
 
+
+/-! ### Outcome plumbing and the decimal cells of `arith` (used by Proofs/C03.lean) -/
+
+/-- An integer outcome as a value outcome. -/
+def intRes : Res Int64 → Res Val
+  | .ok r => .ok (.int r)
+  | .err c a => .err c a
+  | .haz h => .haz h
+  | .unmodelled => .unmodelled
+
+theorem bind_intRes (r : Res Int64) : (r >>= fun x => pure (Val.int x)) = intRes r := by cases r <;> rfl
+
+/-- A decimal outcome as a value outcome. -/
+def numRes : Res Num.F64 → Res Val
+  | .ok r => .ok (.num r)
+  | .err c a => .err c a
+  | .haz h => .haz h
+  | .unmodelled => .unmodelled
+
+theorem bind_numRes (r : Res Num.F64) : (r >>= fun x => pure (Val.num x)) = numRes r := by cases r <;> rfl
+
+theorem Res.bind_eq_ok {α β} (m : Res α) (k : α → Res β) (v : β) (h : (m >>= k) = .ok v) :
+    ∃ a, m = .ok a ∧ k a = .ok v := by
+  cases m with
+  | ok a => exact ⟨a, rfl, h⟩
+  | err c a => exact absurd h (by intro h; cases h)
+  | haz x => exact absurd h (by intro h; cases h)
+  | unmodelled => exact absurd h (by intro h; cases h)
+
+theorem chain_num {α β} (m1 : Res α) (m2 : Res β) (ff : α → β → Res Num.F64) (v : Val)
+    (h : (do let x ← m1; let y ← m2; let r ← ff x y; pure (Val.num r)) = .ok v) : ∃ r, v = .num r := by
+  obtain ⟨a, _, h⟩ := Res.bind_eq_ok _ _ _ h
+  obtain ⟨b, _, h⟩ := Res.bind_eq_ok _ _ _ h
+  obtain ⟨r, _, h⟩ := Res.bind_eq_ok _ _ _ h
+  exact ⟨r, (Res.ok.inj h).symm⟩
+
+/-- Whatever `arith` returns when one operand has type decimal is of type decimal. -/
+theorem arith_decimal (nn : Ty) (ii : Int64 → Int64 → Res Int64) (ff : Num.F64 → Num.F64 → Res Num.F64)
+    (imagOk : Bool) (a1 a2 v : Val) (h : a1.type.major = .num ∨ a2.type.major = .num)
+    (he : arith nn ii ff imagOk a1 a2 = .ok v) : v.type.major = .num ∧ v.type.level = 0 := by
+  unfold arith at he
+  simp only at he
+  split at he
+  · simp [inv] at he
+  · rename_i hl
+    simp only [bne_iff_ne, ne_eq, Bool.or_eq_true, not_or, Decidable.not_not] at hl
+    split at he
+    all_goals first
+      | (exfalso; simp_all; done)
+      | (simp [inv] at he; done)
+      | (cases he; simp_all [Val.type, Ty.num]; done)
+      | (split at he <;> first
+          | (simp [inv] at he; done)
+          | (cases he; simp_all [Val.type, Ty.num]; done)
+          | (obtain ⟨r, rfl⟩ := chain_num _ _ _ _ he; exact ⟨rfl, rfl⟩))
+
+theorem chain_int {α β} (m1 : Res α) (m2 : Res β) (ff : α → β → Res Int64) (v : Val)
+    (h : (do let x ← m1; let y ← m2; let r ← ff x y; pure (Val.int r)) = .ok v) : ∃ r, v = .int r := by
+  obtain ⟨a, _, h⟩ := Res.bind_eq_ok _ _ _ h
+  obtain ⟨b, _, h⟩ := Res.bind_eq_ok _ _ _ h
+  obtain ⟨r, _, h⟩ := Res.bind_eq_ok _ _ _ h
+  exact ⟨r, (Res.ok.inj h).symm⟩
+
+theorem chain_int2 {α β} (m1 : Res α) (m2 : Res β) (ff : α → β → Int64) (v : Val)
+    (h : (do let x ← m1; let y ← m2; pure (Val.int (ff x y))) = .ok v) : ∃ r, v = .int r := by
+  obtain ⟨a, _, h⟩ := Res.bind_eq_ok _ _ _ h
+  obtain ⟨b, _, h⟩ := Res.bind_eq_ok _ _ _ h
+  exact ⟨_, (Res.ok.inj h).symm⟩
+
+/-- Whatever `arith` returns on two operands of type integer is of type integer. -/
+theorem arith_int (nn : Ty) (ii : Int64 → Int64 → Res Int64) (ff : Num.F64 → Num.F64 → Res Num.F64)
+    (imagOk : Bool) (a1 a2 v : Val) (h1 : a1.type.major = .int) (h2 : a2.type.major = .int)
+    (he : arith nn ii ff imagOk a1 a2 = .ok v) : v.type = Ty.int := by
+  unfold arith at he
+  simp only at he
+  split at he
+  · simp [inv] at he
+  · split at he
+    all_goals first
+      | (exfalso; simp_all; done)
+      | (split at he <;> first
+          | (cases he; rfl)
+          | (obtain ⟨r, rfl⟩ := chain_int _ _ _ _ he; rfl))
+
+/-- Whatever `bitwise` returns is of type integer. -/
+theorem bitwise_int (ii : Int64 → Int64 → Int64) (a1 a2 v : Val)
+    (he : bitwise ii a1 a2 = .ok v) : v.type = Ty.int := by
+  unfold bitwise at he
+  simp only at he
+  split at he
+  · simp [inv] at he
+  · split at he
+    all_goals first
+      | (cases he; rfl)
+      | (simp [inv] at he; done)
+      | (split at he <;> first
+          | (cases he; rfl)
+          | (obtain ⟨r, rfl⟩ := chain_int2 _ _ _ _ he; rfl))
+theorem range_bool (s lt m : Bool) : ((!s || lt || (s && m)) && (s || lt)) = (lt || (s && m)) := by
+  cases s <;> cases lt <;> cases m <;> rfl
+
+
 end BlocV.Lemmas
